@@ -134,6 +134,12 @@ def require_clean(res, what):
     """A TLC run that must finish without any error (spec self-consistency)."""
     if res.rc != 0 or "Error:" in res.out:
         tail = "\n".join(res.out.splitlines()[-40:])
+        try:        # the full output, for diagnosis (kept out of the verdict)
+            d = WORK / "tlc_failures"
+            d.mkdir(parents=True, exist_ok=True)
+            (d / f"{os.getpid()}.{time.time_ns() % 10**9}.log").write_text(what + "\n" + res.out[-200000:])
+        except OSError:
+            pass
         raise MachineryError(f"TLC failed in {what} (rc={res.rc}):\n{tail}")
 
 
